@@ -50,7 +50,7 @@ MANIFEST = {
             'source subsets once more with names spelled like builtins of '
             'the expression language (max, str, len) and with an '
             'underscore name.',
-    'more': "Also: a winning source whose value is None; values that render themselves when given the namespace (__render_with_namespace__) and the expression-side spellings _.render(n), _['n'], _.getitem('n', 1); client tuples of 3 and 5 objects; the probe name spelled with capitals / digits / underscores; the tags written with tab, CR LF, form feed ... between their parts; a let tag whose name-form binding is followed by further bindings.",
+    'more': "Also: a winning source whose value is None; values that render themselves when given the namespace (__render_with_namespace__) and the expression-side spellings _.render(n), _['n'], _.getitem('n', 1); client tuples of 3 and 5 objects; the probe name spelled with capitals / digits / underscores; the tags written with tab, CR LF, form feed ... between their parts; a let tag whose name-form binding is followed by further bindings. A name-form condition that is false is remembered like a true one; names that begin like tags (variable, var1, iffy); the same template object called again without the keyword arguments.",
     'note': 'Trusted: dtmc/refsem.py (model namespace: a list of frames '
             'searched last-first; callables called on name lookup only; '
             'sub-templates rendered on the current stack with their '
